@@ -1021,6 +1021,9 @@ func (cx *evalCtx) call(x *ast.CallExpr) (TV, error) {
 					if tv, ok, err := cx.nativePure(p.Path()+"."+sel.Sel.Name, as); ok {
 						return tv, err
 					}
+					if sf := r.eng.specs.SpecFuncs[sel.Sel.Name]; sf != nil && sf.Pkg == p.Path() {
+						return cx.specCall(sf, as)
+					}
 					if o, ok := p.Scope().Lookup(sel.Sel.Name).(*types.Func); ok {
 						return cx.pureCall(r.eng.prog.FuncValue(o), as)
 					}
